@@ -28,6 +28,8 @@ CONSTANTS
   ClockPoints,   \* set of <<day, tod>> the clock may advance to
   SetModes,      \* words given to SetMode (valid and invalid)
   SetPads,       \* paddings around the word (subset of Pads)
+  SetZones,      \* zones the as-of instant is given in (subset of {"", "east", "west"})
+  EmptyProgs,    \* programs whose pre-existing count files hold no counter
   SetDays,       \* dates given to SetMode
   Xs, Rates,     \* X of a run and SampleRate of the downloaded config, in 1/1024
   MaxRun, MaxSet, MaxEdit, MaxCollect, MaxAdv, MaxProc
@@ -48,7 +50,7 @@ vars == <<modeFile, intent, day, tod, files, local, ready, uploaded, requests, p
 Init == /\ modeFile \in ModeFiles
         /\ intent = NoIntent
         /\ \E s \in Starts : day = s[1] /\ tod = s[2]
-        /\ \E fs \in InitFiles : files = [f \in fs |-> 1]
+        /\ \E fs \in InitFiles : files = [f \in fs |-> IF f.p \in EmptyProgs THEN 0 ELSE 1]
         /\ \E r \in InitReports : local = r.local /\ ready = r.ready /\ uploaded = r.uploaded
         /\ requests = {}
         /\ proc = NoProc /\ nProc = 0
@@ -69,12 +71,12 @@ Run(x, rate) ==
     /\ last' = Act("run", "", x, rate, TRUE)
     /\ UNCHANGED <<nSet, nEdit, nCollect, nAdv, nProc, init>>
 
-SetMode(m, p, d, acc) ==
+SetMode(m, p, tz, d, acc) ==
     /\ nSet < MaxSet
     /\ (m \in ValidModes => modeFile.k # "unreadable")   \* the file cannot be written either: the property is silent
     /\ ((p = "" \/ m \notin ValidModes) => acc)      \* one transition per distinct outcome
     /\ Becomes(SetStep(Cur, m, p, d, acc))
-    /\ last' = ActP("set", m, p, d, 0, SetAccepted(m, p, acc))
+    /\ last' = ActZ("set", m, p, tz, d, 0, SetAccepted(m, p, acc))
     /\ nSet' = nSet + 1
     /\ UNCHANGED <<nRun, nEdit, nCollect, nAdv, nProc, init>>
 
@@ -118,7 +120,7 @@ Advance(pt) ==
     /\ UNCHANGED <<modeFile, intent, files, local, ready, uploaded, requests, proc, nProc, nRun, nSet, nEdit, nCollect, init>>
 
 Next == \/ \E x \in Xs, rate \in Rates : Run(x, rate)
-        \/ \E m \in SetModes, p \in SetPads, d \in SetDays, acc \in BOOLEAN : SetMode(m, p, d, acc)
+        \/ \E m \in SetModes, p \in SetPads, tz \in SetZones, d \in SetDays, acc \in BOOLEAN : SetMode(m, p, tz, d, acc)
         \/ \E mf \in ModeFiles : Edit(mf)
         \/ \E p \in Collectors : Collect(p)
         \/ \E p \in LongProgs : PRotate(p) \/ PInc(p)
@@ -139,7 +141,7 @@ NoFileBornUnderOff == [][ExactlyOff(Gov(Cur)) /\ last'.op # "set" /\ last'.op # 
 (* ---- state invariants (sanity of the model) --------------------------------- *)
 TypeOK == /\ IsModeFile(modeFile)
           /\ (intent = NoIntent \/ intent = modeFile)     \* in the specification the file is what was asked for
-          /\ \A f \in DOMAIN files : f.b < f.e /\ files[f] >= 1
+          /\ \A f \in DOMAIN files : f.b < f.e /\ files[f] >= 0
           /\ \A r \in requests : r.run \in 1..nRun
           /\ proc.st \in {"none", "open", "disabled"} /\ (proc.st = "open" <=> proc.f # NoProcFile)
 (* a week is posted at most once over a whole history, and what the server      *)
